@@ -13,7 +13,7 @@ except Exception:
 checks = []
 for p in allp:
     pid = p["id"]
-    if pid not in props:
+    if pid not in props or props[pid].get("claimed") is False:
         continue
     c = props[pid]
     checks.append({
@@ -33,7 +33,7 @@ for p in allp:
     })
 na = []
 for p in allp:
-    if p["id"] not in props:
+    if p["id"] not in props or props[p["id"]].get("claimed") is False:
         na.append({"property_id": p["id"], "reason": json.load(open(os.path.join(ROOT, "not_claimed.json"))).get(p["id"], "check not built yet")})
 man = {
     "version": 1,
